@@ -3,6 +3,8 @@ import Deb822Verif.Model.RelParse
 import Deb822Verif.Model.RelAccess
 import Deb822Verif.Model.RelLossy
 import Deb822Verif.Spec.RelGrammar
+import Deb822Verif.Spec.RelCanon
+import Deb822Verif.Model.RelBuild
 namespace Deb822Verif.Driver.Rel
 open Deb822Verif Proto Rel
 
@@ -149,28 +151,79 @@ def lossyView (s : Str) : String :=
   | .ok es => s!"ok E[{encEntries es}]"
   | .error _ => "err"
 
-/-- open findings of C10 whose trigger region contains the field (ids as in known_findings.json) -/
-def c10Triggers (f : RelSpec.FieldA) : List String :=
-  (if f.hasNegatedArch then ["F-C10-2"] else [])
-  ++ (if f.hasCloseGap then ["F-C10-3"] else [])
-  ++ (if f.hasNegatedArch && !f.hasSubstvar then ["F-C10-4"] else [])
-  ++ (if f.hasMultiTermGroup && !f.hasSubstvar then ["F-C10-5"] else [])
-  ++ (if f.hasProfileEdgeGap && !f.hasSubstvar then ["F-C10-6"] else [])
-  ++ (if f.hasInnerNewline && !f.hasSubstvar then ["F-C10-7"] else [])
+/-- open findings of C10 whose trigger region contains the field: none at present (F-C10-2 … F-C10-7
+    are fixed; their witnesses stay in corpus/C10/fixed.req, a regression is a plain violation) -/
+def c10Triggers (_f : RelSpec.FieldA) : List String := []
 
-/-- cross-check of the specification (Spec/RelGrammar) against the model on this field, outside
-    the trigger regions: lexer, tree, accessor view, lossy view -/
+/-- cross-check of the specification (Spec/RelGrammar) against the model on this field:
+    lexer, tree, accessor view, lossy view -/
 def specVerdict (f : RelSpec.FieldA) : String :=
   if !f.ok then "wf=0" else
   let bad :=
     (if lex f.str == f.toks then [] else ["lex"])
-    ++ (if f.hasCloseGap then [] else
-        (if dump (parse f.str true).tree == dump f.tree && (parse f.str true).errors.isEmpty then [] else ["tree"])
-        ++ (if f.hasNegatedArch || accEntries (parse f.str true).tree == some f.view then [] else ["view"])
-        ++ (if substvars (parse f.str true).tree == f.substvars then [] else ["subst"])
-        ++ (if f.hasSubstvar || f.hasNegatedArch || f.hasMultiTermGroup || f.hasProfileEdgeGap
-              || f.hasInnerNewline || Lossy.readRelations f.str == .ok f.view then [] else ["lossy"]))
+    ++ (if dump (parse f.str true).tree == dump f.tree && (parse f.str true).errors.isEmpty then [] else ["tree"])
+    ++ (if accEntries (parse f.str true).tree == some f.view then [] else ["view"])
+    ++ (if substvars (parse f.str true).tree == f.substvars then [] else ["subst"])
+    ++ (if f.hasSubstvar || Lossy.readRelations f.str == .ok f.view then [] else ["lossy"])
   if bad.isEmpty then "wf=1" else "wf=SPEC-MISMATCH:" ++ ",".intercalate bad
+
+/-! ### C14: lossy values -/
+
+def decProfile (h : String) : Option BuildProfile :=
+  match h.toList with
+  | 'E' :: r => do pure (.Enabled (← decStr (String.ofList r)))
+  | 'D' :: r => do pure (.Disabled (← decStr (String.ofList r)))
+  | _ => none
+
+def decGroup (h : String) : Option (List BuildProfile) :=
+  match h.toList with
+  | 'G' :: r => if r.isEmpty then some [] else ((String.ofList r).splitOn ",").mapM decProfile
+  | _ => none
+
+def decLossyRel (h : String) : Option Lossy.Relation :=
+  match h.splitOn ":" with
+  | [nm, aq, ver, archs, profs] => do
+    let v ← if ver == "none" then some none else
+      match ver.splitOn "." with
+      | [op, t] => do
+        let v ← Version.parse (← decStr t)
+        pure (some (← decOp op, v))
+      | _ => none
+    let a ← if archs == "none" then some none else
+      match archs.toList with
+      | 'L' :: r => if r.isEmpty then some (some []) else do pure (some (← ((String.ofList r).splitOn ",").mapM decStr))
+      | _ => none
+    let ps ← if profs.isEmpty then some [] else (profs.splitOn "/").mapM decGroup
+    pure ⟨← decStr nm, ← decOptStr aq, a, v, ps⟩
+  | _ => none
+
+def decLossyEntry (h : String) : Option (List Lossy.Relation) :=
+  match h.toList with
+  | '(' :: r =>
+    match r.reverse with
+    | ')' :: m => if m.isEmpty then some [] else ((String.ofList m.reverse).splitOn "|").mapM decLossyRel
+    | _ => none
+  | _ => none
+
+def decLossyRels (h : String) : Option (List (List Lossy.Relation)) :=
+  if h.isEmpty then some [] else (h.splitOn ";").mapM decLossyEntry
+
+def showLossyRel (r : Except String Lossy.Relation) : String :=
+  match r with
+  | .ok r => "ok " ++ encLossyRel r
+  | .error _ => "err"
+
+/-- `PANIC` or the tree (text and dump) -/
+def showHandle (o : Outcome Build.Handle) : String :=
+  match o with
+  | .ok h => s!"ok {encStr h.tree.text} {dump h.tree}"
+  | .panic _ => "PANIC"
+
+def c14Triggers (r : Lossy.Relation) : List String :=
+  (if RelSpec.trigNoArchs r then ["F-C14-1"] else []) ++ (if RelSpec.trigManyProfiles r then ["F-C14-2"] else [])
+
+def trigSuffix (ts : List String) : String :=
+  if ts.isEmpty then "" else "\t!" ++ ",".intercalate ts.eraseDups
 
 def handle (op : String) (args : List String) : Option String :=
   match op, args with
@@ -200,6 +253,61 @@ def handle (op : String) (args : List String) : Option String :=
     let trig := c10Triggers f
     let suffix := if trig.isEmpty || !f.ok then "" else "\t!" ++ ",".intercalate trig
     pure (s!"{encStr text} W[E[{encEntries f.view}] S[{encList f.substvars}]] T1:{losslessView text true} T0:{losslessView text false} L:{lossyView text} {specVerdict f}" ++ suffix)
+  | "rel.lrel", [h] => do
+    let r ← decLossyRel h
+    let printed := Lossy.showRelation r
+    let ll := Build.toLossless r
+    let bk := match ll with
+      | .ok hd => (match Build.toLossy hd.tree with | .ok x => "ok " ++ encLossyRel x | .panic _ => "PANIC")
+      | .panic _ => "-"
+    let valid := RelSpec.validR r
+    pure (s!"P:{encStr printed} RT:{showLossyRel (Lossy.readRelation printed)} LL:{showHandle ll} BK:{bk} LV:{losslessView printed false} valid={encBool valid}"
+      ++ (if valid then trigSuffix (c14Triggers r) else ""))
+  | "rel.lrels", [h] => do
+    let rs ← decLossyRels h
+    let printed := Lossy.showRelations rs
+    let ents := rs.map Build.entryFromLossy
+    let en := ";".intercalate (ents.map showHandle)
+    let eb := ";".intercalate (ents.map fun e => match e with
+      | .ok hd => (match Build.entryToLossy hd.tree with
+          | .ok xs => "ok {" ++ "|".intercalate (xs.map encLossyRel) ++ "}"
+          | .panic _ => "PANIC")
+      | .panic _ => "-")
+    let all : Option (List RNode) := ents.mapM fun e => match e with | .ok hd => some hd.tree | .panic _ => none
+    let rsh := match all with
+      | some ts => showHandle (.ok (Build.relationsFromEntries ts))
+      | none => "-"
+    let valid := RelSpec.validRs rs
+    pure (s!"P:{encStr printed} RT:{lossyView printed} LV:{losslessView printed false} EN:{en} EB:{eb} RS:{rsh} valid={encBool valid}"
+      ++ (if valid then trigSuffix (rs.flatten.flatMap c14Triggers) else ""))
+  | "rel.mut", name :: ver :: ops => do
+    let nm ← decStr name
+    let v ← if ver == "none" then some none else
+      match ver.splitOn "." with
+      | [op, t] => do pure (some (← decOp op, ← Version.parse (← decStr t)))
+      | _ => none
+    let step (st : Outcome Build.Handle) (o : String) : Option (Outcome Build.Handle) :=
+      match st with
+      | .panic s => some (.panic s)
+      | .ok hd =>
+        match o.splitOn "=" with
+        | ["aq", a] => do pure (Build.setArchqual hd (← decStr a))
+        | ["ver", "none"] => some (Build.setVersion hd none)
+        | ["ver", x] =>
+          match x.splitOn "." with
+          | [op, t] => do pure (Build.setVersion hd (some (← decOp op, ← Version.parse (← decStr t))))
+          | _ => none
+        | ["arch", l] => do pure (Build.setArchitectures hd (← decList l))
+        | ["prof", g] => do pure (Build.addProfile hd (← decGroup g))
+        | _ => none
+    let rec go (st : Outcome Build.Handle) (os : List String) (acc : List String) : Option (List String) :=
+      match os with
+      | [] => some acc.reverse
+      | o :: r => do
+        let st' ← step st o
+        go st' r (showHandle st' :: acc)
+    let outs ← go (.ok (Build.relationNew nm v)) ops [showHandle (.ok (Build.relationNew nm v))]
+    pure (" ".intercalate outs)
   | "rel.lprint", [t] => do
     let s ← decStr t
     match Lossy.readRelations s with
